@@ -1,6 +1,10 @@
 package main
 
 import (
+	"go/constant"
+	"go/ast"
+	"go/types"
+	"go/token"
 	"fmt"
 	"sort"
 	"strings"
@@ -249,4 +253,178 @@ func containsAll(have, want []string) bool {
 		}
 	}
 	return true
+}
+
+// checkInputSourceConsumes: the closure returned by makeInputSource is called repeatedly by the author
+// (once more whenever the fee grows), and keeps its accumulated inputs across calls. The position in the
+// eligible-coin sequence must therefore persist across calls too: every iteration that hands out a coin
+// advances captured state (re-slices the captured sequence, or increments a captured index). A cursor that
+// lives only inside one call restarts at the first coin, and the same outpoint is appended again.
+func checkInputSourceConsumes(c *Ctx, rule string) {
+	p := c.P
+	fn := p.Func("wallet", "", "makeInputSource")
+	if fn == nil {
+		c.Unresolved(rule, "wallet.makeInputSource")
+		return
+	}
+	n := 0
+	for _, cl := range fn.AnonFuncs {
+		for _, l := range loopsOf(cl) {
+			// the coin handed out: an element of a sequence loaded from a captured variable
+			var seq *ssa.FreeVar
+			var idx ssa.Value
+			for b := range l.Blocks {
+				for _, ins := range b.Instrs {
+					ia, ok := ins.(*ssa.IndexAddr)
+					if !ok {
+						continue
+					}
+					if u, ok := stripConv(ia.X).(*ssa.UnOp); ok && u.Op == token.MUL {
+						if fv, ok := u.X.(*ssa.FreeVar); ok {
+							seq, idx = fv, ia.Index
+						}
+					}
+				}
+			}
+			if seq == nil {
+				continue
+			}
+			n++
+			var idxVar *ssa.FreeVar
+			if u, ok := stripConv(idx).(*ssa.UnOp); ok && u.Op == token.MUL {
+				idxVar, _ = u.X.(*ssa.FreeVar)
+			}
+			advances := func(ins ssa.Instruction) bool {
+				st, ok := ins.(*ssa.Store)
+				if !ok {
+					return false
+				}
+				return st.Addr == ssa.Value(seq) || (idxVar != nil && st.Addr == ssa.Value(idxVar))
+			}
+			bad := l.MustPassPerIteration(p, advances)
+			c.Check(rule, "input-source-cursor-persists-across-calls", l.Header.Instrs[0].Pos(), bad == "",
+				"the input source hands out coins of the captured sequence without advancing captured state ("+bad+"): its next call (fee retry) starts again at the first coin and appends an outpoint that is already among the inputs, so one output is spent twice in one transaction")
+		}
+	}
+	c.Floor(rule, "coin hand-out loops in makeInputSource", n, 1)
+}
+
+// checkFilterConsultsOutpointSets: BlockFilterer keeps several outpoint sets (the watched set handed in with
+// the request, and the set of outputs found earlier in the same block). Whether a transaction spends a wallet
+// output is decided in FilterTx's input loop; it must consult every outpoint-keyed set of the filterer —
+// the found set is merged into the caller's watched set only after the block has been reported, so a spend of
+// an output created earlier in the same block is visible through the found set alone.
+func checkFilterConsultsOutpointSets(c *Ctx, rule string) {
+	p := c.P
+	ft := p.Func("chain", "BlockFilterer", "FilterTx")
+	bfT := p.Named("chain", "BlockFilterer")
+	if ft == nil || bfT == nil {
+		c.Unresolved(rule, "chain.BlockFilterer.FilterTx")
+		return
+	}
+	st, ok := bfT.Underlying().(*types.Struct)
+	if !ok {
+		c.Unresolved(rule, "chain.BlockFilterer struct")
+		return
+	}
+	var sets []string
+	for i := 0; i < st.NumFields(); i++ {
+		if m, ok := st.Field(i).Type().Underlying().(*types.Map); ok && strings.HasSuffix(m.Key().String(), "wire.OutPoint") {
+			sets = append(sets, st.Field(i).Name())
+		}
+	}
+	c.Floor(rule, "outpoint-keyed sets of BlockFilterer", len(sets), 2)
+	loops := loopsRangingOver(ft, "TxIn")
+	c.Floor(rule, "input loops in FilterTx", len(loops), 1)
+	for _, l := range loops {
+		looked := map[string]bool{}
+		for b := range l.Blocks {
+			for _, ins := range b.Instrs {
+				if lk, ok := ins.(*ssa.Lookup); ok {
+					if tn, f, _, okf := fieldOf(stripConv(lk.X)); okf && tn == "BlockFilterer" {
+						looked[f] = true
+					}
+				}
+			}
+		}
+		for _, s := range sets {
+			c.Check(rule, "input-loop-consults:"+s, l.Header.Instrs[0].Pos(), looked[s],
+				"FilterTx decides whether a transaction spends a wallet output without looking its inputs up in BlockFilterer."+s+": spends of outputs known only through that set (e.g. created earlier in the same block) are not reported as relevant, the output stays unspent and the recovered balance is too high")
+		}
+	}
+}
+
+// checkErrorTablesAgree: the backend error tables of package chain (map[string]error literals) are matched
+// by substring against the backend's message, several tables in sequence. Two keys of which one contains the
+// other are therefore matched by the same messages and express a belief about the same backend condition
+// (typically the old and the new wording of one answer); they must map to the same wallet error — in
+// particular "already in the mempool" (transaction is kept) must not be classified as "already known /
+// confirmed" (transaction is removed from the store) under one wording only.
+func checkErrorTablesAgree(c *Ctx, rule string) {
+	p := c.P
+	pk := p.ByPath[rootMod+"/chain"]
+	if pk == nil {
+		c.Unresolved(rule, "package chain")
+		return
+	}
+	type entry struct {
+		table, key, val string
+		pos             token.Pos
+	}
+	var ents []entry
+	tables := 0
+	for _, f := range pk.Syntax {
+		for _, d := range f.Decls {
+			gd, ok := d.(*ast.GenDecl)
+			if !ok || gd.Tok != token.VAR {
+				continue
+			}
+			for _, sp := range gd.Specs {
+				vs := sp.(*ast.ValueSpec)
+				for i, nm := range vs.Names {
+					if i >= len(vs.Values) {
+						continue
+					}
+					cl, ok := vs.Values[i].(*ast.CompositeLit)
+					if !ok {
+						continue
+					}
+					mt, ok := pk.TypesInfo.TypeOf(cl).Underlying().(*types.Map)
+					if !ok || !isErrorType(mt.Elem()) {
+						continue
+					}
+					if b, ok := mt.Key().Underlying().(*types.Basic); !ok || b.Kind() != types.String {
+						continue
+					}
+					tables++
+					for _, el := range cl.Elts {
+						kv, ok := el.(*ast.KeyValueExpr)
+						if !ok {
+							continue
+						}
+						tv, okc := pk.TypesInfo.Types[kv.Key]
+						if !okc || tv.Value == nil {
+							continue
+						}
+						ents = append(ents, entry{nm.Name, strings.ToLower(constant.StringVal(tv.Value)), types.ExprString(kv.Value), kv.Pos()})
+					}
+				}
+			}
+		}
+	}
+	c.Floor(rule, "backend error tables in package chain", tables, 3)
+	c.Floor(rule, "backend error table entries", len(ents), 40)
+	nPairs := 0
+	for i := range ents {
+		for j := range ents {
+			if i == j || !strings.Contains(ents[j].key, ents[i].key) || (ents[i].key == ents[j].key && i > j) {
+				continue
+			}
+			nPairs++
+			c.Check(rule, fmt.Sprintf("overlapping-error-keys-agree:%s[%q]~%s[%q]", ents[i].table, ents[i].key, ents[j].table, ents[j].key), ents[i].pos,
+				ents[i].val == ents[j].val,
+				fmt.Sprintf("backend message key %q (%s -> %s) is contained in key %q (%s -> %s): both match the same backend answer but classify it differently; publishTransaction keeps a transaction for ErrTxAlreadyInMempool and removes it from the store for ErrTxAlreadyKnown/ErrTxAlreadyConfirmed", ents[i].key, ents[i].table, ents[i].val, ents[j].key, ents[j].table, ents[j].val))
+		}
+	}
+	c.Floor(rule, "overlapping key pairs across the error tables", nPairs, 1)
 }
